@@ -12,6 +12,10 @@ import (
 	"strings"
 	"testing"
 
+	"path/filepath"
+	"github.com/meshplus/bitxhub-kit/log"
+	"github.com/meshplus/bitxhub-kit/storage/blockfile"
+	"github.com/meshplus/bitxhub-kit/storage/leveldb"
 	"github.com/meshplus/bitxhub-kit/types"
 	"github.com/meshplus/bitxhub-model/pb"
 )
@@ -213,6 +217,51 @@ func TestGovcReplayLedger(t *testing.T) {
 				fmt.Println("REPLAY-CONFIRMED a lookup by transaction hash does not answer the data of the block stored at the indexed height and position")
 				return
 			}
+		}
+	case "reopen-after-a-crash-between-the-two-commits":
+		// block 1 persisted completely; of block 2 only ONE of the two independent commits happened (the process died
+		// between them); the node comes back: the ledger must open at height 1 (or 2), whichever store is ahead
+		for _, which := range []string{"chain index ahead", "state store ahead"} {
+			lg, dir := initLedger(t, "")
+			lg.PrepareBlock(nil, 1)
+			lg.SetBalance(a, big.NewInt(1))
+			accounts, r1 := lg.FlushDirtyData()
+			lg.PersistBlockData(genBlockData(1, accounts, r1))
+			lg.PrepareBlock(nil, 2)
+			lg.SetBalance(a, big.NewInt(2))
+			accounts, r2 := lg.FlushDirtyData()
+			bd := genBlockData(2, accounts, r2)
+			var perr error
+			if which == "chain index ahead" {
+				perr = lg.ChainLedger.PersistExecutionResult(bd.Block, bd.Receipts, bd.InterchainMeta)
+			} else {
+				perr = lg.StateLedger.Commit(2, accounts, r2)
+			}
+			if perr != nil {
+				fmt.Println("REPLAY-NOT-CONFIRMED could not persist one side:", perr)
+				return
+			}
+			lg.Close()
+			bs, _ := leveldb.New(filepath.Join(dir, "storage"))
+			sdb, _ := leveldb.New(filepath.Join(dir, "ledger"))
+			ac, _ := NewAccountCache()
+			lgr := log.NewWithModule("replay")
+			bf, _ := blockfile.NewBlockFile(dir, lgr)
+			l2, err := New(createMockRepo(t), bs, sdb, bf, ac, lgr)
+			if err != nil {
+				fmt.Printf("replay: %s by one block: reopening the ledger FAILED: %v\n", which, err)
+				fmt.Println("REPLAY-CONFIRMED after a crash between the two commits of a block the ledger does not open")
+				os.RemoveAll(dir)
+				return
+			}
+			fmt.Printf("replay: %s by one block: reopened at chain height %d, state version %d, balance %v\n", which, l2.GetChainMeta().Height, l2.Version(), l2.GetBalance(a))
+			if l2.GetChainMeta().Height != l2.Version() {
+				fmt.Println("REPLAY-CONFIRMED the ledger opened with the two stores at different heights")
+				os.RemoveAll(dir)
+				return
+			}
+			l2.Close()
+			os.RemoveAll(dir)
 		}
 	default:
 		fmt.Println("REPLAY-NOT-CONFIRMED unknown scenario", in.Values["scenario"])
